@@ -469,6 +469,9 @@ func (f *Filter) Walk(rest, path Expr, nodes []any, cb func(path Expr, nodes []a
 		}
 	default:
 		rv := reflect.ValueOf(tv)
+		if rv.Kind() == reflect.Ptr {
+			rv = rv.Elem()
+		}
 		switch rv.Kind() {
 		case reflect.Slice, reflect.Array:
 			cnt := rv.Len()
